@@ -142,6 +142,7 @@ def impl(t, case):
     if hash(a) != ha or hash(a) != hash(a.id):
         extra.append("hash-not-constant")
     extra += same_named_class_probe()
+    extra += deep_tree_probe()
     del bd, a, b, c
     gc.collect()
     if extra:
@@ -171,6 +172,55 @@ def same_named_class_probe():
     out = []
     if a == b or b == a or not (a != b):
         out.append("eq-same-named-other-class")
+    return out
+
+
+_DEEP = []
+
+
+def deep_tree_probe():
+    """== / != on separately built chains far deeper than the interpreter's recursion limit (the property says "at any
+    depth"; the model's trees stay small): equal chains, chains differing only at the deepest node, chains differing only
+    in the origin of the deepest node.  Run once per worker process (seeded change C02-9: == by recursion)."""
+    if _DEEP:
+        return _DEEP[0]
+    from dataclasses import dataclass
+
+    from pyoak.node import ASTNode
+    from pyoak.origin import CodeOrigin, MemoryTextSource, get_code_range
+
+    @dataclass(frozen=True)
+    class VerifDeepProbe(ASTNode):
+        v: int = 0
+        nxt: "VerifDeepProbe | None" = None
+
+    VerifDeepProbe.__annotations__["nxt"] = VerifDeepProbe | None
+
+    def chain(depth, last, origin=None):
+        n = VerifDeepProbe(v=last) if origin is None else VerifDeepProbe(v=last, origin=origin)
+        for k in range(depth):
+            n = VerifDeepProbe(v=k, nxt=n)
+        return n
+
+    out = []
+    try:
+        src = MemoryTextSource(_raw="abcdef")
+        o = CodeOrigin(src, get_code_range(0, 1, 0, 2, 1, 2))
+        a, b, c, d = chain(3000, 7), chain(3000, 7), chain(3000, 8), chain(3000, 7, o)
+        if not (a == b) or (a != b) or not (a == a):
+            out.append("deep:equal-chains-not-equal")
+        if a == c or not (a != c):
+            out.append("deep:different-leaf-equal")
+        if a == d or not (a != d):
+            out.append("deep:different-leaf-origin-equal")
+        if a.content_id != b.content_id or a.content_id == c.content_id or not a.is_equal(d):
+            out.append("deep:content-id")
+        hash(a)
+    except RecursionError:
+        out.append("deep:RecursionError")
+    except Exception as e:  # noqa
+        out.append("deep:raises:" + type(e).__name__)
+    _DEEP.append(out)
     return out
 
 
